@@ -165,12 +165,15 @@ PROPS['C11'] = dict(
     technique='contract-based deductive verification (Verus) of block contracts on verbatim statement ranges',
 )
 PROPS['C13'] = dict(
-    level='proof', verus=['c13_evr'],
-    trusted_base=[A_TOOLS, A_EXTRACT, 'compare_version_string (rpmvercmp on two strings) is an UNINTERPRETED function here: its agreement with rpm is NOT decided (first sentence of C13 not claimed: &str pattern-API code, no Verus specifications, Kani did not terminate on 2-byte strings)'],
-    assumptions=['claimed for the SECOND sentence only: EVR = epoch (empty meaning 0), then version, then release; NEVRA = name, then EVR, then arch; and the order laws (reflexive, antisymmetric under swapping, transitive) hold for EVRs whenever they hold for the string comparison (lemma_evr_order is conditional on vercmp being a total preorder)',
+    level='proof', verus=['c13_vercmp', 'c13_evr'],
+    trusted_base=[A_TOOLS, A_EXTRACT,
+                  'the SPECIFICATION rpmvercmp (prelude/vercmp.rs) is my transcription of rpm lib/rpmvercmp.c: separators skipped, tilde, caret, digit / alphabetic segments, leftovers; three of its values are checked in spec_examples - its agreement with the C code is by reading, not by proof',
+                  'A-STR: str::trim_start_matches(closure / char), strip_prefix(char), starts_with(closure), is_empty, len, cmp (lexicographic by bytes = by code points) and == with their documented meaning, as contracts of the helpers the calls are rewritten to; char::is_ascii_alphanumeric / is_ascii_digit / is_ascii_alphabetic by assumed specifications',
+                  'the nested helper fn matching_contiguous (find / split_at / filter) is NOT verified: it is moved out of the body (R39) and declared with the contract "the longest non-empty run of characters satisfying the predicate, and the rest"'],
+    assumptions=['byte lengths: digit runs are ASCII so their byte length is their length (axiom_byte_len: byte length >= character count, equal for ASCII); for the leftovers only emptiness matters',
                  "R5: Cow<'a, str> fields are modelled as String (only their text is used)"],
-    explanation='Verbatim bodies of `impl Ord for Evr` and `impl Ord for Nevra`: the result is the lexicographic combination lex3(vercmp(epoch-or-0), vercmp(version), vercmp(release)) resp. lex3(vercmp(name), evr_cmp, vercmp(arch)) for an arbitrary string comparison; lemma_evr_order lifts reflexivity, antisymmetry and transitivity from the string comparison to EVRs.',
-    technique='contract-based deductive verification (Verus) of the EVR/NEVRA comparison structure over an uninterpreted string comparison',
+    explanation='compare_version_string (verbatim loop, three character-class closures verified against their classes) returns rpmvercmp(a, b) for ALL strings: loop invariant "the specification applied to the remaining parts equals the specification applied to the inputs", every return point and the two unreachable!() arms discharged. The specification itself is proved a total preorder (lemma_rpmvercmp_total_preorder: reflexive, mirror-symmetric, transitive, Equal is a congruence) by induction over the token structure. impl Ord for Evr / Nevra (verbatim) are the lexicographic combinations lex3(epoch-or-0, version, release) resp. lex3(name, evr, arch) over that comparison, and lemma_evr_total_preorder lifts the order laws to EVRs - now without hypothesis.',
+    technique='contract-based deductive verification (Verus): the real comparison loop against a recursive specification of rpmvercmp, order laws proved on the specification',
 )
 PROPS['C09'] = dict(
     level='proof', verus=['c09_from_entries', 'c09_blocks', 'c14_writers', 'c07_payload', 'c16_offsets', 'c17_compressor', 'c06_files'],
